@@ -1,6 +1,23 @@
 import Revm.Spec.JournalAbs
-/-! C06 — reverting to a checkpoint restores exactly the state at that checkpoint. (work in progress:
-first theorems; the refinement proof is being built in Revm.Proofs.Journal) -/
+import Revm.Proofs.JournalInv
+import Revm.Proofs.JournalRefs
+/-! C06 — reverting to a checkpoint restores exactly the state at that checkpoint.
+
+`Model/Journal.lean` is the code-shaped model of `JournaledState` (every operation, every `JournalEntry`
+undo, `unwrap` panics explicit); `Spec/JournalAbs.lean` says what is observable (`absAcct`, `AbsEq`: balances,
+nonces, code hash, storage original/present values, transient storage, logs, created / selfdestructed /
+touched / not-existing marks, warm/cold status of accounts and slots, with absent map entries read as the
+database says and cold unless tx-level pre-warmed) and what a history is (`Op`, `step`, `run`).
+
+Conditions of the statement, all explicit:
+* `WF`: balances are 256-bit words (a `U256` in the Rust); for the total form `JRefs`: the journal refers only to
+  accounts / slots present in the state map (true of a fresh `JournaledState`, preserved by every operation);
+* `DbOk`: the database's `has_storage` answer is faithful (EIP-7610);
+* `admissible`: `set_code` only on an account with empty code, `create_account_checkpoint` only on a target
+  not yet marked created, with the faithful `has_storage` answer and a funded caller,
+  `initial_account_load` (transaction-level pre-warming, deliberately not journaled) not after the checkpoint,
+  and only checkpoints younger than the one under consideration are reverted in between;
+* one consensus exception built into `absAcct`: the touched mark of 0x03 from Spurious Dragon on (DESIGN §8). -/
 namespace Revm.Props.C06
 open Revm Revm.Model.Journal Revm.Spec.JournalAbs
 
@@ -8,10 +25,130 @@ theorem eqv_refl (x : AbsAcct) : x.eqv x := ⟨rfl, rfl, rfl, rfl, rfl, rfl, rfl
 
 /-- committing keeps every change: the observable state is untouched by `checkpoint_commit` -/
 theorem commit_keeps (db : Db) (s : JState) : AbsEq db (commit s) s :=
-  ⟨fun a => eqv_refl _, fun _ _ => rfl, rfl⟩
+  ⟨fun _ => eqv_refl _, fun _ _ => rfl, rfl⟩
 
 /-- taking a checkpoint changes nothing observable -/
 theorem checkpoint_keeps (db : Db) (s : JState) : AbsEq db (checkpoint s).1 s :=
-  ⟨fun a => eqv_refl _, fun _ _ => rfl, rfl⟩
+  ⟨fun _ => eqv_refl _, fun _ _ => rfl, rfl⟩
+
+/-- **Revert restores.** `rpre` is any well-formed state; `op` (a `checkpoint`, or a
+`create_account_checkpoint` that succeeds) hands out the checkpoint `cp`; `ops` is ANY admissible history
+after it — loads, transfers, nonce / code / storage / transient writes, logs, selfdestructs, creations,
+nested checkpoints that are committed or reverted; then `checkpoint_revert cp` (if it does not panic)
+yields a state observably equal to `rpre`: balances, nonces, code, storage, transient storage, logs,
+touched / created / destroyed marks and warm/cold status (pre-warmed entries stay warm: `absAcct`
+reads them from `preloaded`). -/
+theorem revert_restores (db : Db) (hasStorage : Addr → Bool) (rpre r0 r : Run) (op : Op) (cp : Checkpoint)
+    (ops : List Op) (s' : JState)
+    (hdb : DbOk db hasStorage) (hwf : WF db rpre.js)
+    (hadm0 : admissible db hasStorage 0 rpre op = true)
+    (hstep : step db rpre op = some r0) (hcp : r0.cps = rpre.cps ++ [cp])
+    (hadm : admissibleRun db hasStorage (rpre.cps.length + 1) r0 ops = true)
+    (hrun : run db r0 ops = some r)
+    (hrev : revert r.js cp = some s') : AbsEq db s' rpre.js :=
+  Proofs.Journal.revert_restores_core hdb hwf hadm0 hstep hcp hadm hrun hrev
+
+/-- **Revert restores, and never panics.** The same with the last hypothesis discharged: when the journal of the
+starting state is non-empty and refers only to accounts / slots present in the state map (`JRefs`; true of
+`JournaledState::new`, preserved by every operation), then after ANY admissible history the revert of the
+checkpoint does not hit an `unwrap` on a vacant entry, and it restores the observable state. -/
+theorem revert_restores_total (db : Db) (hasStorage : Addr → Bool) (rpre r0 r : Run) (op : Op) (cp : Checkpoint)
+    (ops : List Op)
+    (hdb : DbOk db hasStorage) (hwf : WF db rpre.js) (hrefs : JRefs rpre.js) (hne : rpre.js.journal ≠ [])
+    (hadm0 : admissible db hasStorage 0 rpre op = true)
+    (hstep : step db rpre op = some r0) (hcp : r0.cps = rpre.cps ++ [cp])
+    (hadm : admissibleRun db hasStorage (rpre.cps.length + 1) r0 ops = true)
+    (hrun : run db r0 ops = some r) :
+    ∃ s', revert r.js cp = some s' ∧ AbsEq db s' rpre.js :=
+  Proofs.Journal.revert_restores_total hdb hwf hrefs hne hadm0 hstep hcp hadm hrun
+
+/-- a fresh `JournaledState` satisfies the journal well-formedness -/
+theorem jrefs_new (spec : Nat) (pre : Addr → Bool) :
+    JRefs (JState.new spec pre) ∧ (JState.new spec pre).journal ≠ [] :=
+  ⟨JRefs.new spec pre, by simp [JState.new]⟩
+
+/-- the same through the history interface: the checkpoint is still at its index after any history,
+and the `revert i` step restores the state -/
+theorem revert_restores_by_index (db : Db) (hasStorage : Addr → Bool) (rpre r0 r r' : Run) (op : Op)
+    (cp : Checkpoint) (ops : List Op)
+    (hdb : DbOk db hasStorage) (hwf : WF db rpre.js)
+    (hadm0 : admissible db hasStorage 0 rpre op = true)
+    (hstep : step db rpre op = some r0) (hcp : r0.cps = rpre.cps ++ [cp])
+    (hadm : admissibleRun db hasStorage (rpre.cps.length + 1) r0 ops = true)
+    (hrun : run db r0 ops = some r)
+    (hrev : step db r (.revert rpre.cps.length) = some r') :
+    r.cps[rpre.cps.length]? = some cp ∧ AbsEq db r'.js rpre.js := by
+  obtain ⟨t, ht⟩ := Proofs.Journal.run_cps_prefix (db := db) ops hrun
+  have hi : r.cps[rpre.cps.length]? = some cp := by rw [ht, hcp]; simp
+  refine ⟨hi, ?_⟩
+  simp only [step, hi, Option.map_eq_some_iff] at hrev
+  obtain ⟨js', h1, rfl⟩ := hrev
+  exact revert_restores db hasStorage rpre r0 r op cp ops js' hdb hwf hadm0 hstep hcp hadm hrun h1
+
+/-- **A revert of an outer checkpoint also undoes committed inner ones.** Between the outer checkpoint and
+its revert an inner checkpoint is taken, any admissible `inner` history runs, the inner checkpoint is
+committed, any admissible `after` history runs: the outer revert still restores the outer state. -/
+theorem outer_revert_undoes_inner_commit (db : Db) (hasStorage : Addr → Bool) (rpre r0 r : Run) (cp : Checkpoint)
+    (before inner after : List Op) (s' : JState)
+    (hdb : DbOk db hasStorage) (hwf : WF db rpre.js)
+    (hstep : step db rpre .checkpoint = some r0) (hcp : r0.cps = rpre.cps ++ [cp])
+    (hadm : admissibleRun db hasStorage (rpre.cps.length + 1) r0
+      (before ++ [.checkpoint] ++ inner ++ [.commit] ++ after) = true)
+    (hrun : run db r0 (before ++ [.checkpoint] ++ inner ++ [.commit] ++ after) = some r)
+    (hrev : revert r.js cp = some s') : AbsEq db s' rpre.js :=
+  revert_restores db hasStorage rpre r0 r .checkpoint cp _ s' hdb hwf rfl hstep hcp hadm hrun hrev
+
+/-! ### the hypotheses are satisfiable: a concrete history with a committed inner checkpoint, a reverted
+inner checkpoint, a creation, storage, transient storage and logs -/
+section example_
+
+def exDb : Db :=
+  { basic := fun a => if a = 1 then some { balance := 1000, nonce := 7, codeHash := KECCAK_EMPTY, code := none }
+                      else if a = 2 then some { balance := 5, nonce := 0, codeHash := 0x1234, code := none } else none
+    storage := fun a k => if a = 2 ∧ k = 0 then 9 else 0
+    delegate := fun _ => none }
+def exHs : Addr → Bool := fun a => a = 2
+def exPre : Run := { js := JState.new 17 (fun a => a = 9), cps := [] }
+def exR0 : Run := { js := (checkpoint exPre.js).1, cps := [(checkpoint exPre.js).2] }
+def exOps : List Op :=
+  [.load 1, .load 2, .load 5, .transfer 1 2 30, .sload 2 0, .sstore 2 0 4, .tstore 2 1 8, .log 3,
+   .checkpoint, .incNonce 1, .sstore 2 1 6, .create 1 5 false 10 17, .sload 5 3, .commit, .commit,
+   .checkpoint, .selfdestruct 2 1, .log 4, .revert 3, .touch 3, .loadDelegated 9]
+
+theorem exDb_ok : DbOk exDb exHs := by
+  intro a h k; simp [exHs] at h; simp [exDb, h]
+
+theorem exWF : WF exDb exPre.js := by
+  intro a; simp only [absAcct, exPre, JState.new, exDb]
+  by_cases h1 : a = 1
+  · simp [h1]; rw [W_val]; decide
+  · by_cases h2 : a = 2
+    · simp [h2]; rw [W_val]; decide
+    · simp [h1, h2, Info.default]; rw [W_val]; decide
+
+theorem exAdm : admissibleRun exDb exHs 1 exR0 exOps = true := by decide
+theorem exRun : (run exDb exR0 exOps).isSome = true := by decide
+
+def exR : Run := (run exDb exR0 exOps).get exRun
+theorem exRev : (revert exR.js (checkpoint exPre.js).2).isSome = true := by decide
+def exS' : JState := (revert exR.js (checkpoint exPre.js).2).get exRev
+
+/-- before the outer revert the history is visible (balance moved, storage written, inner checkpoint
+committed, account 5 created): -/
+theorem exVisible : (absAcct exDb exR.js 2).balance = 35 ∧ ((absAcct exDb exR.js 2).slot 0).present = 4 ∧
+    (absAcct exDb exR.js 5).created = true ∧ (absAcct exDb exR.js 1).nonce = 8 ∧ exR.js.logs = [3] ∧
+    tload exR.js 2 1 = 8 := by decide
+
+/-- every hypothesis of `revert_restores` holds here, so the outer revert restores the initial state -/
+example : AbsEq exDb exS' exPre.js :=
+  revert_restores exDb exHs exPre exR0 exR .checkpoint (checkpoint exPre.js).2 exOps exS' exDb_ok exWF rfl rfl rfl
+    exAdm (Option.some_get exRun).symm (Option.some_get exRev).symm
+
+/-- the total form applies to the same history: the revert is not assumed to succeed -/
+example : ∃ s', revert exR.js (checkpoint exPre.js).2 = some s' ∧ AbsEq exDb s' exPre.js :=
+  revert_restores_total exDb exHs exPre exR0 exR .checkpoint (checkpoint exPre.js).2 exOps exDb_ok exWF
+    (jrefs_new _ _).1 (jrefs_new _ _).2 rfl rfl rfl exAdm (Option.some_get exRun).symm
+
+end example_
 
 end Revm.Props.C06
